@@ -47,7 +47,8 @@ def main():
                 open(p, "w").write(s.replace(ed["old"], ed["new"]))
             tests_ok = None
             if tests:
-                r = subprocess.run([os.path.join(HERE, "tools", "run_baseline.py"), d], capture_output=True, text=True)
+                r = subprocess.run([os.path.join(HERE, "tools", "run_baseline.py"), d], capture_output=True, text=True,
+                                   env=dict(os.environ, BASELINE_TIMEOUT="60"))
                 tests_ok = r.returncode == 0
             row = {"name": mu["name"], "tests_pass": tests_ok, "checks": {}}
             for pid in mu["props"]:
